@@ -9,3 +9,4 @@ import Sheens.ES
 import Sheens.EngineOracle
 import Sheens.SioCrew
 import Sheens.MatchSpecC
+import Sheens.MCrew
